@@ -215,7 +215,7 @@ def close_cols(got, want):
 PATHS = ["formula", "spec-unfitted", "two-sided-formula", "two-sided-specs"]
 
 
-def materialize(path, s, ordering, wrt, efr):
+def materialize(path, s, ordering, wrt, efr, output="pandas"):
     """-> (dict side -> (derivative SimpleFormula, ModelMatrix), note)   raises whatever the implementation raises"""
     from formulaic import Formula, ModelSpec, model_matrix
 
@@ -224,21 +224,21 @@ def materialize(path, s, ordering, wrt, efr):
     if path == "formula":
         F = formula_for(s, ordering)
         D = F.differentiate(*wrt)
-        return {"root": (D, D.get_model_matrix(df, ensure_full_rank=efr))}, note
+        return {"root": (D, D.get_model_matrix(df, ensure_full_rank=efr, output=output))}, note
     if path == "spec-unfitted":
         F = formula_for(s, ordering)
-        md = ModelSpec.from_spec(F, ensure_full_rank=efr).differentiate(*wrt)
+        md = ModelSpec.from_spec(F, ensure_full_rank=efr, output=output).differentiate(*wrt)
         return {"root": (md.formula, md.get_model_matrix(df))}, note
     F = formula_for("y ~ " + s, ordering)
     if path == "two-sided-formula":
         D = F.differentiate(*wrt)
         try:
-            mm = D.get_model_matrix(df, ensure_full_rank=efr)
+            mm = D.get_model_matrix(df, ensure_full_rank=efr, output=output)
         except AttributeError as e:
             note = "AttributeError: " + str(e)[:120]
-            mm = model_matrix(D, df, ensure_full_rank=efr)
+            mm = model_matrix(D, df, ensure_full_rank=efr, output=output)
         return {k: (D._structure[k], mm._structure[k]) for k in ("lhs", "rhs")}, note
-    md = ModelSpec.from_spec(F, ensure_full_rank=efr).differentiate(*wrt)
+    md = ModelSpec.from_spec(F, ensure_full_rank=efr, output=output).differentiate(*wrt)
     mm = md.get_model_matrix(df)
     return {k: (md._structure[k].formula, mm._structure[k]) for k in ("lhs", "rhs")}, note
 
@@ -248,6 +248,7 @@ def drv_numeric(c, ctx, col):
     wrt = choose_wrt(c, ctx)
     efr = not c.flag()
     path = c.pick(ctx["paths"])
+    output = c.pick(ctx.get("outputs", ["pandas"]))
     ordering = "none"
     written = {"root" if not path.startswith("two-sided") else "rhs": (["1"] if icpt else []) + [":".join(t) for t in terms]}
     if path.startswith("two-sided"):
@@ -255,10 +256,10 @@ def drv_numeric(c, ctx, col):
     shown = rhs if not path.startswith("two-sided") else "y ~ " + rhs
     wrt_s = ", ".join(repr(w) for w in wrt)
     if path in ("formula", "two-sided-formula"):
-        call = "Formula(%r, _ordering='none').differentiate(%s).get_model_matrix(df, ensure_full_rank=%s)" % (shown, wrt_s, efr)
+        call = "Formula(%r, _ordering='none').differentiate(%s).get_model_matrix(df, ensure_full_rank=%s, output=%r)" % (shown, wrt_s, efr, output)
     else:
-        call = ("ModelSpec.from_spec(Formula(%r, _ordering='none'), ensure_full_rank=%s).differentiate(%s).get_model_matrix(df)"
-                % (shown, efr, wrt_s))
+        call = ("ModelSpec.from_spec(Formula(%r, _ordering='none'), ensure_full_rank=%s, output=%r).differentiate(%s).get_model_matrix(df)"
+                % (shown, efr, output, wrt_s))
     want_all = {k: [CR.d_term(CR.split_term(t), wrt) for t in v] for k, v in written.items()}
     try:  # number of literal-0 terms in the implementation's own derivative (marker for the known intercept clash)
         Dsym = formula_for(shown, ordering).differentiate(*wrt)
@@ -269,9 +270,9 @@ def drv_numeric(c, ctx, col):
             col.count("unspecified-function-of-wrt-raises")
             return
     has_one = any(r == ("TERM", ()) for v in want_all.values() for r in v)
-    key = "numeric[%s] :: %r wrt=%s ensure_full_rank=%s (zero-terms=%d unit-term=%s)" % (
-        path, shown, list(wrt), efr, n_zero, "yes" if has_one else "no")
-    detail = {"formula": shown, "wrt": list(wrt), "ensure_full_rank": efr, "path": path, "data": DATA,
+    key = "numeric[%s] :: %r wrt=%s ensure_full_rank=%s output=%s (zero-terms=%d unit-term=%s)" % (
+        path, shown, list(wrt), efr, output, n_zero, "yes" if has_one else "no")
+    detail = {"formula": shown, "wrt": list(wrt), "ensure_full_rank": efr, "path": path, "output": output, "data": DATA,
               "repro": "df = pandas.DataFrame(%r); %s" % ({k: DATA[k] for k in ("a", "b", "c", "y")}, call)}
     checkable = sum(1 for v in want_all.values() for r in v if r[0] == "TERM")
     _violation = col.violation
@@ -282,7 +283,7 @@ def drv_numeric(c, ctx, col):
     if checkable and wrt:
         col.interesting()
     try:
-        res, note = materialize(path, rhs, ordering, wrt, efr)
+        res, note = materialize(path, rhs, ordering, wrt, efr, output)
     except Exception as e:
         col.violation(key, dict(detail, error="%s: %s" % (type(e).__name__, str(e)[:200])), sig="materialization-raises")
         return
@@ -296,7 +297,7 @@ def drv_numeric(c, ctx, col):
             violation(key, dict(detail, got=[str(t) for t in dterms]), sig="term-count-or-structure-changed")
             return
         ms = mm.model_spec
-        values = numpy.asarray(mm, dtype=float)
+        values = numpy.asarray(mm.todense() if output == "sparse" else mm, dtype=float)
         ncols = values.shape[1] if values.ndim == 2 else 0
         detail_side = dict(detail, side=side, derivative=[str(t) for t in dterms], columns=list(getattr(mm, "columns", [])),
                            matrix_first_row=values[0].tolist() if ncols else [],
@@ -407,6 +408,9 @@ def subchecks(tier, seed):
                         shard_depth=3, bounds={"max_terms": 2, "term_pool": 14, "wrt_max_len": 2, "ensure_full_rank": [True, False], "paths": ["formula"]}))
         subs.append(Sub("numeric-paths", drv_numeric, {"terms": TERMS_PLAIN, "n": 2, "wrt": 2, "paths": PATHS[1:]},
                         shard_depth=3, bounds={"max_terms": 2, "term_pool": 7, "wrt_max_len": 2, "ensure_full_rank": [True, False], "paths": PATHS[1:]}))
+        subs.append(Sub("numeric-outputs", drv_numeric, {"terms": TERMS_PLAIN, "n": 1, "wrt": 2, "paths": ["formula"], "outputs": ["numpy", "sparse"]},
+                        shard_depth=3, bounds={"max_terms": 1, "term_pool": 7, "wrt_max_len": 2, "ensure_full_rank": [True, False],
+                                               "paths": ["formula"], "outputs": ["numpy", "sparse"]}))
         subs.append(Sub("fitted-spec", drv_fitted, {"terms": TERMS_PLAIN, "n": 1, "wrt": 1}, shard_depth=2,
                         bounds={"max_terms": 1, "term_pool": 7, "wrt_max_len": 1}))
     else:
@@ -420,6 +424,10 @@ def subchecks(tier, seed):
                         shard_depth=4, bounds={"max_terms": 3, "term_pool": 14, "wrt_max_len": 2, "ensure_full_rank": [True, False], "paths": ["formula"]}))
         subs.append(Sub("numeric-paths", drv_numeric, {"terms": TERMS_ALL, "n": 2, "wrt": 3, "paths": PATHS},
                         shard_depth=3, bounds={"max_terms": 2, "term_pool": 14, "wrt_max_len": 3, "ensure_full_rank": [True, False], "paths": PATHS}))
+        subs.append(Sub("numeric-outputs", drv_numeric, {"terms": TERMS_PLAIN, "n": 2, "wrt": 2, "paths": ["formula", "two-sided-specs"],
+                                                          "outputs": ["numpy", "sparse"]},
+                        shard_depth=3, bounds={"max_terms": 2, "term_pool": 7, "wrt_max_len": 2, "ensure_full_rank": [True, False],
+                                               "paths": ["formula", "two-sided-specs"], "outputs": ["numpy", "sparse"]}))
         subs.append(Sub("fitted-spec", drv_fitted, {"terms": TERMS_PLAIN, "n": 2, "wrt": 2}, shard_depth=2,
                         bounds={"max_terms": 2, "term_pool": 7, "wrt_max_len": 2}))
     return subs
